@@ -241,6 +241,26 @@ def check_pattern(ctx, tr, rng, k, j, forced=None):
                     ctx.disagree('q.match(p, REALPATH) disagrees with membership in Path(\'.\').rglob(p)',
                                  dict(wit, q=c, match=m, in_rglob=inr), fid)
                     break
+            # the same correspondence with an exclusion given to both sides (a base name: the anchoring of exclusions must agree)
+            if rset and not icase and isinstance(pats, str) and not kw:
+                victim = sorted(rset)[(k + j) % len(rset)]
+                ex = G.escape(os.path.basename(victim))
+                if ex and ex not in ('.', '..'):
+                    try:
+                        rset_e = {os.path.normpath(str(p)) for p in WP.Path('.').rglob(pats, flags=flags_p, exclude=ex)}
+                    except Exception as e:  # noqa: BLE001
+                        rset_e = f'raised {type(e).__name__}'
+                    for c in sorted(rset)[:30]:
+                        try:
+                            m = WP.Path(c).match(pats, flags=(flags_p & ~WP.NOUNIQUE) | WP.REALPATH, exclude=ex)
+                        except Exception as e:  # noqa: BLE001
+                            m = f'raised {type(e).__name__}'
+                        ctx.count('match_vs_rglob_checks')
+                        inr = isinstance(rset_e, set) and os.path.normpath(c) in rset_e
+                        if m is not inr and not (m is False and inr and first_assignment_shape(toks, fn, c, implicit=True)):
+                            ctx.disagree('with exclude=, q.match(p, REALPATH) disagrees with membership in Path(\'.\').rglob(p)',
+                                         dict(wit, q=c, exclude=ex, match=m, in_rglob=inr if isinstance(rset_e, set) else rset_e))
+                            break
         finally:
             os.chdir(cwd)
     # ---- ValueError cases ----------------------------------------------------------------------------
